@@ -1483,7 +1483,9 @@ namespace bloch::runtime {
         if (runUserDestructor && obj->cls) {
             bool savedReturn = m_hasReturn;
             // The object may die while a 'return' of the surrounding function is unwinding; its
-            // destructors still run from their first to their last statement.
+            // destructors still run from their first to their last statement, and whatever they
+            // call must not disturb the value being returned.
+            Value savedReturnValue = m_returnValue;
             m_hasReturn = false;
             for (RuntimeClass* cur = obj->cls; cur; cur = cur->base) {
                 if (!cur->destructorDecl || !cur->destructorDecl->body)
@@ -1519,6 +1521,7 @@ namespace bloch::runtime {
                 m_currentClassCtx = prevClass;
             }
             m_hasReturn = savedReturn;
+            m_returnValue = savedReturnValue;
         }
         // Reset tracked qubits
         if (obj->cls) {
